@@ -41,3 +41,23 @@ Section Ctx.
   Definition stored (b : backend) (t : task) (lab_context : ctx) (result : nat) : nat * nat :=
     (key_of t, entry_of t result).
 End Ctx.
+
+(* ---- the Lab's context over the life of a Lab object: it may be given another context object between calls; each call hands a
+   context to the runner it builds (which then applies the per-task filter above). *)
+Section LabCtx.
+  Variable ctx : Type.
+  Inductive lab_op := LSetContext (c : ctx) | LRun.
+  Fixpoint handed (b : ctx_binding) (initial current : ctx) (ops : list lab_op) : list ctx :=
+    match ops with
+    | [] => []
+    | LSetContext c :: ops' => handed b initial c ops'
+    | LRun :: ops' => (match b with CtxAtRun => current | _ => initial end) :: handed b initial current ops'
+    end.
+  (* the Lab's context at the moment of each call *)
+  Fixpoint current_at_runs (current : ctx) (ops : list lab_op) : list ctx :=
+    match ops with
+    | [] => []
+    | LSetContext c :: ops' => current_at_runs c ops'
+    | LRun :: ops' => current :: current_at_runs current ops'
+    end.
+End LabCtx.
